@@ -4,7 +4,9 @@ package kcache
 
 import (
 	"context"
+
 	"errors"
+	pkgerrors "github.com/pkg/errors"
 
 	lifecycle "github.com/boz/go-lifecycle"
 	"github.com/boz/kcache/zzverif"
@@ -307,8 +309,10 @@ func VerifC14_Controller() {
 		zzverif.Quiesce()
 		<-e.w.resets
 	}
-	kind := zzverif.NondetInt("failure", 0, 3)
+	kind := zzverif.NondetInt("failure", 0, 4)
 	switch kind {
+	case 4:
+		e.l.resultch <- listResult{err: pkgerrors.Wrap(context.Canceled, "client list")} // a cancellation error of the server's own
 	case 0:
 		e.l.resultch <- listResult{err: vInjected}
 	case 1:
